@@ -534,6 +534,17 @@ class CFG:
                     # conditions with the same text are the same fact (so that `if (a) {if (c) return;} else if (c) return;`
                     # leaves `c` false on the merged path)
                     f = out | {((canon(cond) if canon else cond), idx == 0)}
+                    # short-circuit operators: `a || b` is true on the true edge of either operand, `a && b` false on
+                    # the false edge of either operand; at the second operand the whole condition has that operand's truth
+                    term = self.func.nodes.get(blk.get('term')) if blk.get('term') else None
+                    if tk == 'BinaryOperator' and term is not None and term.get('k') == 'Bin':
+                        if term.get('op') == '||' and idx == 0:
+                            f = f | {((canon(term['i']) if canon else term['i']), True)}
+                        elif term.get('op') == '&&' and idx == 1:
+                            f = f | {((canon(term['i']) if canon else term['i']), False)}
+                    tcn = blk.get('tc')
+                    if tcn and tcn != cond:
+                        f = f | {((canon(tcn) if canon else tcn), idx == 0)}
                 old = facts_in[s]
                 new = f if old is None else (old & f)
                 if old is None or new != old:
